@@ -163,6 +163,7 @@ class KernelRun:
         res_spec = ",".join(f"{k}:{v}" for k, v in avail.items()) or None
         self.res_spec, self.cap = res_spec, cap
         self.targets, self.tdirs = targets, tdirs
+        self.avail = avail
         self.wf, self.sched = await cm.enter_async_context(
             implkit.workflow(targets=targets, target_dirs=tdirs, defer_cap=cap, resources=res_spec,
                              with_scheduler=True))
@@ -355,6 +356,43 @@ class KernelRun:
             await self.hashes(HashUpdateCause.EXTERNAL, [src], 1.0)
         if await self.pop_until(top, limit=3):
             await self.step_op("reset_rerun", top, fn=lambda: wf.find(Step, top).reset_for_rerun())
+        for _ in range(r.randint(1, 3)):
+            await self.pop()
+
+    async def resource_race(self):
+        """A step that holds all units of a resource is detached while it runs (its creator, a
+        sub-plan, fails); another step that needs the same resource is ready."""
+        r, wf = self.r, self.wf
+        running = await self.q(lambda: self.steps(StepState.RUNNING))
+        avail = dict(self.avail)
+        if "./plan.py" not in running or not avail:
+            return
+        name = r.choice(sorted(avail))
+        units = avail[name]
+        o1, o2 = r.sample(PATHS, 2)
+        if not (await self.define_explicit("./plan.py", "./sub.py", [], [], Need.PLAN)).startswith("ok"):
+            return
+        if not await self.pop_until("./sub.py"):
+            return
+        for creator, cmd, out, need_units in (("./sub.py", "hog", o1, units), ("./plan.py", "wait", o2, r.randint(1, units))):
+            res = {name: need_units}
+            self.decls[cmd] = (cmd, ".", (), (), (out,), (), Need.DEFAULT, False, dict(res), {})
+
+            def fn(creator=creator, cmd=cmd, out=out, res=res):
+                return wf.define_step(wf.find(Step, creator), cmd, inp_paths=[], env_deps=[], out_paths=[out],
+                                      vol_paths=[], workdir=".", need=Need.DEFAULT, resources=dict(res), shell=False,
+                                      env_overrides=None, _safe=False)
+
+            line = (f"k define {kkey('step', creator)} {hexs(cmd)} {hexs('.')} . . {hexlist([out])} . DEFAULT 0 0 "
+                    f"{units_tok(res)} .")
+            if not (await self.tx(line, fn, lambda v: hexlist(sorted(v)))).startswith("ok"):
+                return
+            if cmd == "hog" and not await self.pop_until("hog", limit=3):
+                return
+        # the sub-plan fails: its products are detached, `hog` keeps running
+        await self.step_op("completed", "./sub.py", "~", 0,
+                           fn=lambda: wf.find(Step, "./sub.py").mark_completed(None, False),
+                           result=lambda v: kdump.b01(v))
         for _ in range(r.randint(1, 3)):
             await self.pop()
 
@@ -815,6 +853,8 @@ class KernelRun:
                 await self.nested_chain()
             elif k < 0.3:
                 await self.deferred_wakeup()
+            elif k < 0.38:
+                await self.resource_race()
         menu = [(self.define, 20), (self.static, 8), (self.declstatic, 5), (self.tree, 4), (self.nglob, 4),
                 (self.amend, 8), (self.recycle_under_glob, 3),
                 (self.confirm, 12), (self.external, 6), (self.pop, 18), (self.run_step, 18),
